@@ -327,6 +327,12 @@ func (vs *ValidatorStore) fetchPostponedUnstakes() error {
 		err = vs.HandleUnstake(*unstake, vs.lastHeight)
 		if err != nil {
 			logger.Errorf("Handle unstake for validator: %s failed, %s\n", validator.Address, err)
+			// The cut is looked up under the previous height only. A validator
+			// that has just been removed from the set cannot be changed for two
+			// blocks: keep the cut for the next block instead of losing it.
+			if err := vs.SetDelayUnstake(unstake); err != nil {
+				logger.Errorf("Failed to postpone unstake again for validator: %s, %s\n", validator.Address, err)
+			}
 			return false
 		}
 		logger.Infof("Unstake %s for validator: %s was applied!\n", unstake.Amount, validator.Address)
